@@ -30,7 +30,18 @@ Qed.
 
 Section SpecSide.
 Variable stb : stable.
-Hypothesis HSobj : forall k m, slookup stb k = Some m -> exists b, m = SObj b /\ forallb okb b = true.
+(* a function-like macro name (never scanned as a plain token in the fragments below) *)
+Definition is_flb (t : btok) : bool :=
+  tkind_eqb (bk t) KId && match slookup stb (bt t) with Some (SFun _ _ _) => true | _ => false end.
+Definition is_flh (t : htok) : bool :=
+  tkind_eqb (hk t) KId && match slookup stb (ht t) with Some (SFun _ _ _) => true | _ => false end.
+Definition okb2 (t : btok) : bool := okb t && negb (is_flb t).
+Hypothesis HSobj : forall k b, slookup stb k = Some (SObj b) -> forallb okb2 b = true.
+
+Lemma okb2_okb b : forallb okb2 b = true -> forallb okb b = true.
+Proof.
+  rewrite !forallb_forall. intros H x Hx. specialize (H x Hx). unfold okb2 in H. apply andb_true_iff in H. tauto.
+Qed.
 
 Definition snames : list string := map fst stb.
 
@@ -148,7 +159,7 @@ Qed.
 
 (* ---------- expand computes ES ---------- *)
 Definition all_hs (hs : list string) (xs : list htok) : Prop :=
-  forall x, In x xs -> hh x = hs /\ okh x = true.
+  forall x, In x xs -> hh x = hs /\ okh x = true /\ is_flh x = false.
 
 Definition sscan_at (d : nat) : Prop :=
   forall xs hs, all_hs hs xs -> invS hs d ->
@@ -160,15 +171,16 @@ Proof.
   unfold okb, okh. rewrite !andb_true_iff. intros [_ H]. exact H.
 Qed.
 
-Lemma all_hs_body hs w body : forallb okb body = true -> all_hs hs (hset_w w (map (lift hs) body)).
+Lemma all_hs_body hs w body : forallb okb2 body = true -> all_hs hs (hset_w w (map (lift hs) body)).
 Proof.
   intros H x Hx.
-  assert (Hall : forall y, In y (map (lift hs) body) -> hh y = hs /\ okh y = true).
+  assert (Hall : forall y, In y (map (lift hs) body) -> hh y = hs /\ okh y = true /\ is_flh y = false).
   { intros y Hy. apply in_map_iff in Hy. destruct Hy as (b & <- & Hb). split; [reflexivity|].
-    apply okb_okh. rewrite forallb_forall in H. now apply H. }
+    rewrite forallb_forall in H. specialize (H b Hb). unfold okb2 in H. apply andb_true_iff in H.
+    destruct H as [H1 H2]. split; [now apply okb_okh|]. apply negb_true_iff in H2. exact H2. }
   destruct (map (lift hs) body) as [|y r] eqn:E; cbn [hset_w] in Hx; [contradiction|].
   destruct Hx as [<-|Hx].
-  - destruct (Hall y (or_introl eq_refl)) as [H1 H2]. split; [exact H1|]. exact H2.
+  - destruct (Hall y (or_introl eq_refl)) as (H1 & H2 & H3). repeat split; assumption.
   - apply Hall. now right.
 Qed.
 
@@ -177,7 +189,7 @@ Proof.
   intros IHd xs. induction xs as [|x xs IHx]; intros hs Hall Hinv.
   - exists 0. intros f ys r H. exact H.
   - assert (Hall' : all_hs hs xs) by (intros y Hy; apply Hall; now right).
-    destruct (Hall x (or_introl eq_refl)) as [Hhs Hok].
+    destruct (Hall x (or_introl eq_refl)) as (Hhs & Hok & Hnfl).
     destruct (IHx hs Hall' Hinv) as (n2 & H2).
     cbn [flat_map]. rewrite ES_eq.
     (* the cases where the token is kept *)
@@ -189,7 +201,9 @@ Proof.
     destruct (tkind_eqb (hk x) KId) eqn:Hid; cbn [negb]; [|apply Hkeep; now left].
     destruct (mem (ht x) (hh x)) eqn:Hm; [apply Hkeep; right; now left|].
     destruct (slookup stb (ht x)) as [mac|] eqn:Hl; [|apply Hkeep; right; now right].
-    destruct (HSobj _ _ Hl) as (body & -> & Hb).
+    destruct mac as [body|ps va fbody].
+    2:{ unfold is_flh in Hnfl. rewrite Hid, Hl in Hnfl. discriminate. }
+    pose proof (HSobj _ _ Hl) as Hb2. pose proof (okb2_okb _ Hb2) as Hb.
     rewrite Hhs in Hm.
     destruct d as [|d'].
     { rewrite (pigeonS hs _ _ Hinv Hl) in Hm. discriminate. }
@@ -197,7 +211,7 @@ Proof.
     { apply invS_push; [assumption|assumption|]. eapply slookup_In, Hl. }
     rewrite Hhs.
     destruct (IHd d' eq_refl (hset_w (hw x) (map (lift (ht x :: hs)) body)) (ht x :: hs)
-                  (all_hs_body _ _ _ Hb) Hinv') as (n1 & H1).
+                  (all_hs_body _ _ _ Hb2) Hinv') as (n1 & H1).
     exists (S (n1 + n2)). intros f ys r Hr.
     replace (S (n1 + n2) + f) with (S (n1 + (n2 + f))) by lia. cbn [app].
     rewrite (X_macro _ x (xs ++ ys) body); try assumption.
@@ -208,15 +222,134 @@ Qed.
 Lemma sscan_all d : sscan_at d.
 Proof. induction d as [|d IH]; apply sscan_step; intros d' H; [discriminate|]. injection H as <-. exact IH. Qed.
 
+(* ---------- function-like invocation with flat arguments ---------- *)
+Definition hplain (t : htok) : bool :=
+  negb (h_is KPunct "," t) && negb (h_is KPunct "(" t) && negb (h_is KPunct ")" t).
+Fixpoint hflat_more (more : list (htok * list htok)) : list htok :=
+  match more with [] => [] | (c, a) :: r => c :: a ++ hflat_more r end.
+Definition hmore_ok (more : list (htok * list htok)) : Prop :=
+  Forall (fun ca => h_is KPunct "," (fst ca) = true /\ forallb hplain (snd ca) = true) more.
+
+Lemma actuals_arg a : forall tail nsplit cur acc,
+  forallb hplain a = true ->
+  actuals (a ++ tail) 0 nsplit cur acc = actuals tail 0 nsplit (cur ++ a) acc.
+Proof.
+  induction a as [|x a IH]; intros tail nsplit cur acc Hp; cbn [app].
+  - now rewrite app_nil_r.
+  - cbn [forallb] in Hp. apply andb_true_iff in Hp. destruct Hp as [Hx Ha].
+    unfold hplain in Hx. rewrite !andb_true_iff, !negb_true_iff in Hx. destruct Hx as [[H1 H2] H3].
+    cbn [actuals]. rewrite H3, H2, H1. cbn [andb]. rewrite IH by assumption. now rewrite <- app_assoc.
+Qed.
+
+Lemma h_is_excl k s1 s2 t : h_is k s1 t = true -> s1 <> s2 -> h_is k s2 t = false.
+Proof.
+  unfold h_is. rewrite andb_true_iff. intros [Hk H] Hn. apply String.eqb_eq in H.
+  apply andb_false_iff. right. apply String.eqb_neq. congruence.
+Qed.
+
+Lemma actuals_flat more : forall a rp rest nsplit cur acc,
+  forallb hplain a = true -> hmore_ok more -> h_is KPunct ")" rp = true -> List.length more <= nsplit ->
+  actuals (a ++ hflat_more more ++ rp :: rest) 0 nsplit cur acc
+  = Some (acc ++ (cur ++ a) :: map snd more, hh rp, rest).
+Proof.
+  induction more as [|[c a2] r IH]; intros a rp rest nsplit cur acc Ha Hm Hr Hn.
+  - cbn [hflat_more app map]. rewrite actuals_arg by assumption. cbn [actuals]. now rewrite Hr.
+  - inversion Hm as [|ca r' [Hc Ha2] Hm']; subst. cbn [fst snd] in Hc, Ha2.
+    cbn [hflat_more map]. rewrite actuals_arg by assumption. cbn [app actuals].
+    rewrite (h_is_excl KPunct "," ")" c Hc) by discriminate.
+    rewrite (h_is_excl KPunct "," "(" c Hc) by discriminate. rewrite Hc. cbn [andb Nat.eqb].
+    destruct nsplit as [|n]; [cbn in Hn; lia|].
+    rewrite <- app_assoc. rewrite (IH a2 rp rest n [] (acc ++ [cur ++ a]) Ha2 Hm' Hr) by (cbn in Hn; lia).
+    cbn [app]. now rewrite <- app_assoc.
+Qed.
+
+(* tokens that are not macro names pass through expand unchanged *)
+Definition inert (t : htok) : bool :=
+  okh t && (negb (tkind_eqb (hk t) KId) || match slookup stb (ht t) with None => true | Some _ => false end).
+
+Lemma keep_all xs : forall f, forallb inert xs = true -> List.length xs < f -> expandS stb f xs = Ok xs.
+Proof.
+  induction xs as [|x xs IH]; intros f H Hf; (destruct f as [|f]; [lia|]); [reflexivity|].
+  cbn [forallb] in H. apply andb_true_iff in H. destruct H as [Hx Hxs].
+  unfold inert in Hx. apply andb_true_iff in Hx. destruct Hx as [Hok Hc].
+  rewrite X_keep; [|assumption|].
+  - rewrite IH; [reflexivity|assumption|cbn in Hf; lia].
+  - apply orb_true_iff in Hc. destruct Hc as [Hc|Hc].
+    + left. now apply negb_true_iff.
+    + right. right. destruct (slookup stb (ht x)); [discriminate|reflexivity].
+Qed.
+
+(* subst on a function-like replacement list without # and ##, every argument inert *)
+Definition nohash (t : btok) : bool := negb (String.eqb (bt t) "#") && negb (String.eqb (bt t) "##").
+
+Fixpoint subst_out (ap : list (string * list htok)) (body : list btok) : list htok :=
+  match body with
+  | [] => []
+  | t :: r => match param ap t with
+              | Some a => hset_w (bw t) a ++ subst_out ap r
+              | None => lift [] t :: subst_out ap r
+              end
+  end.
+
+Lemma subst_funlike ex ap body : forall os,
+  forallb nohash body = true ->
+  (forall t a, In t body -> param ap t = Some a -> ex a = Ok a) ->
+  subst ex true ap body os = Ok (os ++ subst_out ap body).
+Proof.
+  induction body as [|t r IH]; intros os Hn Hex; cbn [subst subst_out].
+  - now rewrite app_nil_r.
+  - cbn [forallb] in Hn. apply andb_true_iff in Hn. destruct Hn as [Ht Hr].
+    unfold nohash in Ht. rewrite andb_true_iff, !negb_true_iff in Ht. destruct Ht as [H1 H2].
+    replace (b_is KOp "#" t) with false by (unfold b_is; now rewrite H1, andb_false_r).
+    replace (b_is KOp "##" t) with false by (unfold b_is; now rewrite H2, andb_false_r).
+    cbn [andb].
+    assert (Hex' : forall t0 a, In t0 r -> param ap t0 = Some a -> ex a = Ok a).
+    { intros t0 a0 Hi. apply Hex. now right. }
+    assert (Hnc : match r with c :: _ => b_is KOp "##" c | [] => false end = false).
+    { destruct r as [|c r']; [reflexivity|]. cbn [forallb] in Hr. apply andb_true_iff in Hr. destruct Hr as [Hc _].
+      unfold nohash in Hc. rewrite andb_true_iff, !negb_true_iff in Hc. destruct Hc as [_ Hc].
+      unfold b_is. now rewrite Hc, andb_false_r. }
+    destruct (param ap t) as [a|] eqn:Hp.
+    + destruct r as [|c r'].
+      * rewrite (Hex t a (or_introl eq_refl) Hp). rewrite IH by assumption. now rewrite <- app_assoc.
+      * rewrite Hnc. rewrite (Hex t a (or_introl eq_refl) Hp). rewrite IH by assumption. now rewrite <- app_assoc.
+    + rewrite IH by assumption. rewrite <- app_assoc. reflexivity.
+Qed.
+
+Lemma inter_nil_l l : inter [] l = [].
+Proof. reflexivity. Qed.
+
+(* one source-level invocation (hide sets of the name and of the parenthesis empty) *)
+Lemma X_call f T lp a more rp rest params body ap os :
+  okh T = true -> tkind_eqb (hk T) KId = true -> hh T = [] -> hh rp = [] ->
+  slookup stb (ht T) = Some (SFun params false body) ->
+  h_is KPunct "(" lp = true -> forallb hplain a = true -> hmore_ok more -> h_is KPunct ")" rp = true ->
+  starts_with_cat body = false ->
+  bind_args params false (a :: map snd more) = Ok ap ->
+  subst_all (expandS stb f) true ap body = Ok os ->
+  expandS stb (S f) (T :: lp :: a ++ hflat_more more ++ rp :: rest)
+  = expandS stb f (hset_w (hw T) (hsadd [ht T] os) ++ rest).
+Proof.
+  intros Hok Hid HhT Hhr Hl Hlp Ha Hm Hr Hsc Hb Hs.
+  cbn [expandS]. rewrite Hid. cbn [negb].
+  unfold okh in Hok. rewrite Hid in Hok. cbn [andb] in Hok. apply negb_true_iff in Hok. rewrite Hok.
+  rewrite HhT. cbn [mem existsb]. rewrite Hl, Hlp, Hsc.
+  rewrite (actuals_flat more a rp rest _ [] [] Ha Hm Hr).
+  2:{ rewrite !app_length. cbn [List.length].
+      clear. induction more as [|[c a2] r IH]; cbn [List.length hflat_more]; [lia|]. rewrite app_length. lia. }
+  cbn [app]. rewrite Hb, Hs, Hhr. reflexivity.
+Qed.
+
 Theorem expandS_objlike (input : list btok) :
-  forallb okb input = true ->
+  forallb okb2 input = true ->
   exists n, forall fuel, n <= fuel ->
     expandS stb fuel (map (lift []) input) = Ok (flat_map (ES (List.length snames)) (map (lift []) input)).
 Proof.
   intros Hok.
   destruct (sscan_all (List.length snames) (map (lift []) input) []) as (n & Hn).
   { intros x Hx. apply in_map_iff in Hx. destruct Hx as (b & <- & Hb). split; [reflexivity|].
-    apply okb_okh. rewrite forallb_forall in Hok. now apply Hok. }
+    rewrite forallb_forall in Hok. specialize (Hok b Hb). unfold okb2 in Hok. apply andb_true_iff in Hok.
+    destruct Hok as [H1 H2]. split; [now apply okb_okh|]. apply negb_true_iff in H2. exact H2. }
   { repeat split; [constructor|intros x []|cbn; lia]. }
   exists (S n). intros fuel Hf.
   replace fuel with (n + S (fuel - S n)) by lia.
